@@ -89,6 +89,10 @@ func (fs *FileStorage) send(m storage.Message) (storage.Message, error) {
 	if data, err = json.Marshal(m); err != nil {
 		return m, fmt.Errorf("failed to marshal a message %v: %w", m, err)
 	}
+	// a longer line could be appended but never read or counted again: it would stop every reader for good
+	if len(data)+1 > maxLineSize {
+		return m, fmt.Errorf("message is too long: %d bytes, at most %d fit into one line of a data file", len(data), maxLineSize-1)
+	}
 
 	if _, err = fmt.Fprintln(fs.dataFile, string(data)); err != nil {
 		return m, fmt.Errorf("failed to write a message to a data file:  %w", err)
